@@ -416,3 +416,60 @@ Lemma stk_blocks_app a b : stk_blocks (a ++ b) = stk_blocks a ++ stk_blocks b.
 Proof. unfold stk_blocks. apply flat_map_app. Qed.
 Lemma stk_blocks_cons f r : stk_blocks (f :: r) = fr_blocks f ++ stk_blocks r.
 Proof. reflexivity. Qed.
+
+(* ------------------------------------------------------------------------------------------ *)
+(* further facts about the measures                                                           *)
+(* ------------------------------------------------------------------------------------------ *)
+Lemma ftot_zero {V} (d : V) (f : V -> nat) (m : list (N * V)) : fkeys_nodup m = true -> f d = 0%nat ->
+  (forall k, f (fget d m k) = 0%nat) -> ftot f m = 0%nat.
+Proof.
+  induction m as [|[k0 v0] r IH]; cbn; [reflexivity|]. intros Hn Hd H. apply andb_prop in Hn as [H1 H2].
+  pose proof (H k0) as Hk. rewrite N.eqb_refl in Hk. rewrite Hk, IH; [reflexivity|assumption|assumption|].
+  intros k. specialize (H k). destruct (k =? k0) eqn:E; [|assumption].
+  apply N.eqb_eq in E; subst. apply negb_true_iff in H1. rewrite (fget_nokey d r k0 H1). exact Hd.
+Qed.
+
+Lemma sum_fr_pos_ex f stk : (1 <= sum_fr f stk)%nat -> exists fr, In fr stk /\ (1 <= f fr)%nat.
+Proof.
+  induction stk as [|x r IH]; cbn; [lia|]. intros H. destruct (Nat.eq_dec (f x) 0) as [E|E].
+  - destruct IH as [fr [H1 H2]]; [lia|]. exists fr. auto.
+  - exists x. split; [auto|lia].
+Qed.
+
+Lemma d1_fr_le P s f : (cnt P (d1_fr s f) <= cnt P (fr_blocks f))%nat.
+Proof. destruct f; cbn [d1_fr fr_blocks]; try lia; destruct s; rewrite ?cnt_cons, ?cnt_nil; try destruct (P b); lia. Qed.
+Lemma d1_flat_le P stk : (cnt P (flat_map (d1_fr false) stk) <= cnt P (stk_blocks stk))%nat.
+Proof.
+  induction stk as [|x r IH]; [cbn; lia|]. cbn [flat_map]. rewrite stk_blocks_cons, !cnt_app.
+  pose proof (d1_fr_le P false x). lia.
+Qed.
+Lemma d1_stk_le P ret stk : (cnt P (d1_stk ret stk) <= cnt P (stk_blocks stk))%nat.
+Proof.
+  destruct stk as [|x r]; [cbn; lia|]. cbn [d1_stk]. rewrite stk_blocks_cons, !cnt_app.
+  pose proof (d1_fr_le P ret x). pose proof (d1_flat_le P r). lia.
+Qed.
+Lemma mD_le_mW c P : (mD c P <= mW c P)%nat.
+Proof.
+  unfold mD, mW.
+  assert (ftot (fun th => cnt P (d1_stk (th_ret th) (th_stk th))) (c_th c) <= ftot (th_W P) (c_th c))%nat.
+  { apply ftot_le. intros th. unfold th_W. pose proof (d1_stk_le P (th_ret th) (th_stk th)). lia. }
+  lia.
+Qed.
+
+(* the free lists of the other pages contain no block of page p *)
+Lemma mF_local c p : wf c -> (forall q, forallb (onp q) (pg_blocks (getp c q)) = true) ->
+  mF c (onp p) = (cnt (onp p) (pg_free (getp c p)) + cnt (onp p) (pg_lfree (getp c p)))%nat.
+Proof.
+  intros Hwf L.
+  pose proof (mF_setp c Hwf p pg0 (onp p)) as E. cbn [pg_free pg_lfree pg0] in E. rewrite cnt_nil in E.
+  assert (Z : mF (setp c p pg0) (onp p) = 0%nat).
+  { unfold mF. apply (ftot_zero pg0); [pose proof (wf_parts _ (wf_setp c p pg0 Hwf)) as (_ & W2 & _); exact W2|reflexivity|].
+    intros q. change (fget pg0 (c_pg (setp c p pg0)) q) with (getp (setp c p pg0) q). rewrite getp_setp.
+    destruct (q =? p) eqn:Eq; [reflexivity|].
+    specialize (L q). unfold pg_blocks in L. rewrite !forallb_app in L. apply andb_prop in L as [_ L].
+    apply andb_prop in L as [L1 L2].
+    rewrite !cnt_none; [reflexivity| |]; intros x Hx.
+    - pose proof (forallb_In _ _ L2 x Hx) as Hq. unfold onp in *. apply N.eqb_eq in Hq. rewrite Hq. exact Eq.
+    - pose proof (forallb_In _ _ L1 x Hx) as Hq. unfold onp in *. apply N.eqb_eq in Hq. rewrite Hq. exact Eq. }
+  lia.
+Qed.
